@@ -9,6 +9,13 @@ FIXED = [
     "F takes alpha, beta and gamma\ngive back alpha at beta at gamma\n\nsay F taking 1, x, F taking 2, 3, 4\n",
     "rock x with 1, 2, y\nrock x like a razor's edge. ok\nroll x into y at 1\nx is a b. c-d e's\nlet x at 1 at 2 be with y, z\n",
     "while a\nuntil b\nif c\nsay d\nelse\nsay e\n\n\n\nbuild f up\nknock g down\nlisten to h\nlisten\nturn up i at 1\nbreak\ncontinue\n",
+    # empty blocks in every position: then, else, loop bodies, function bodies
+    "if a\n\nsay b\n", "if a\n\nelse\n\nsay b\n", "if a\nsay b\nelse\n\nsay c\n", "while a\n\nsay b\n", "until a at b\n\nsay c\n",
+    "F takes x\n\nsay F taking y\n", "if a\nwhile b\n\n\nsay c\n", "if a\nif b\n\nelse\n\n\nsay c\n",
+    # every statement kind once more with the rarer optional parts present / absent
+    "cast x\ncast x with y\ncast x into y\ncast x into y with z\nturn x up\nturn round x at y\nrock x\nroll x\nroll x at y into z at w\n",
+    "let x be y\nlet x be times y\nlet x at y be z, w\nput x at y at z into w at v\nx is y\nx says y z\nmy heart is true\nTom Sawyer's 5\n",
+    "give back x\nF taking x, y at z\nsay roll roll x\nsay not not x\nsay - x\nsay x is not y\nsay x is as big as y\n",
 ]
 
 
